@@ -18,6 +18,17 @@ def load(pid):
     return m.MUTANTS
 
 
+def _run_tests(d):
+    try:
+        r = subprocess.run(['/venv/bin/python', '-m', 'pytest', '-q', '-x', '-p', 'no:cacheprovider',
+                            '--timeout=120', '--deselect', 'aiuti/asyncio.py::aiuti.asyncio.to_async_iter',
+                            '--deselect', 'aiuti/asyncio.py::aiuti.asyncio.to_sync_iter'],
+                           cwd=d, capture_output=True, text=True, timeout=240)
+    except subprocess.TimeoutExpired:
+        return 'TESTS-HANG'
+    return 'tests-pass' if r.returncode == 0 else 'TESTS-FAIL'
+
+
 def main():
     pid = sys.argv[1].upper()
     tier = 'quick'
@@ -42,11 +53,7 @@ def main():
             open(p, 'w').write(s.replace(old, new))
             tres = ''
             if tests:
-                r = subprocess.run(['/venv/bin/python', '-m', 'pytest', '-q', '-x', '-p', 'no:cacheprovider',
-                                    '--timeout=900', '--deselect', 'aiuti/asyncio.py::aiuti.asyncio.to_async_iter',
-                                    '--deselect', 'aiuti/asyncio.py::aiuti.asyncio.to_sync_iter'],
-                                   cwd=d, capture_output=True, text=True)
-                tres = 'tests-pass' if r.returncode == 0 else 'TESTS-FAIL'
+                tres = _run_tests(d)
             t0 = time.time()
             env = dict(os.environ, VERIF_REPO=d)
             r = subprocess.run([os.path.join(ROOT, 'check'), pid, tier], capture_output=True, text=True, env=env)
